@@ -14,6 +14,8 @@ import (
 
 	"github.com/anishathalye/porcupine"
 	"github.com/philpearl/avro"
+	avronull "github.com/philpearl/avro/null"
+	avrotime "github.com/philpearl/avro/time"
 
 	"verifharness/core"
 	"verifharness/gen"
@@ -301,6 +303,13 @@ func runC12(c *core.Ctx, i int) {
 						fail(kind, "freshly built codec decodes differently")
 					}
 					rb.ExtractResourceBank().Close()
+				case op < 64: // the library's own sub-packages re-register their codecs (idempotent)
+					kind = "register-builtin"
+					if gr.IntN(2) == 0 {
+						avrotime.RegisterCodecs()
+					} else {
+						avronull.RegisterCodecs()
+					}
 				case op < 72: // timestamps with arbitrary zone offsets (cache insertions)
 					kind = "parse-time"
 					off := gr.IntN(2*1439+1) - 1439
